@@ -248,6 +248,38 @@ impl Monitor for C12 {
                         (Ok(_), false) => rep.count("route_eq", "quote_ok_route_rejected"),
                         (Err(_), false) => rep.held("route_eq", abs, || json!({"hops": operations.len(), "both": "query and route fail"})),
                     }
+                    // the quote also holds whatever (satisfiable) minimum_receive, receiver and
+                    // tolerance the caller passes along
+                    if let (Ok(q), true) = (&q, out.is_ok()) {
+                        let qa = q.return_amount.u128();
+                        let variants: Vec<(Option<Uint128>, bool)> = vec![(Some(Uint128::new(qa)), false), (Some(Uint128::new(qa.saturating_sub(1))), true), (Some(Uint128::new(qa / 2)), false), (Some(Uint128::zero()), true)];
+                        let (min, to_other) = variants[s.idx % variants.len()].clone();
+                        let other = w.users[(s.idx / 4) % w.users.len()].clone();
+                        let recv = if to_other && other != *sender { other.clone() } else { sender.clone() };
+                        w.restore(s.pre_snap);
+                        let b0 = w.balance(&recv, token_out_denom);
+                        let out2 = w.exec(
+                            sender,
+                            &c,
+                            &pm::ExecuteMsg::ExecuteSwapOperations { operations: operations.clone(), minimum_receive: min, receiver: if recv == *sender { None } else { Some(recv.to_string()) }, max_slippage: Some(Decimal::percent(50)) },
+                            funds,
+                        );
+                        let b1 = w.balance(&recv, token_out_denom);
+                        let paid_in = if recv == *sender && &funds[0].denom == token_out_denom { funds[0].amount.u128() } else { 0 };
+                        let delta = (b1 + paid_in).saturating_sub(b0);
+                        let ret = parse_events(&out2, &w.pm).unwrap_or_default().iter().find_map(|e| if let PoolEv::RouteSummary { return_amount, .. } = e { Some(*return_amount) } else { None });
+                        let abs2 = hash_of(&("min", operations.len(), s.idx % variants.len(), recv == *sender));
+                        if out2.is_ok() && ret == Some(qa) && delta == qa {
+                            rep.held("route_eq", abs2, || json!({"hops": operations.len(), "minimum_receive": min.map(|m| m.to_string()), "receiver": if recv == *sender { "sender" } else { "another account" }, "quoted": qa.to_string(), "delivered": delta.to_string()}));
+                        } else {
+                            rep.failed(
+                                "route_eq",
+                                None,
+                                format!("SimulateSwapOperations quoted {qa}; with minimum_receive {:?} the route {} reported {:?} and delivered {delta}", min.map(|m| m.u128()), if out2.is_ok() { "executed," } else { "was refused," }, ret),
+                                witness(json!({"operations": operations, "offer": funds[0].to_string(), "minimum_receive": min.map(|m| m.to_string())})),
+                            );
+                        }
+                    }
                     w.restore(&post_snap);
                 }
                 _ => {}
